@@ -1,5 +1,5 @@
 (* C19Proofs.v -- proofs of the C19 statements of model/CallSpec.v, on top of proofs/ExecInv.v. *)
-From Coq Require Import Lia.
+From Coq Require Import Lia PeanoNat.
 From Aqua Require Import Base Json Air Trace Handler Values Scalars Lens Exec RunExec ExecStreams CallSpec ExecInv ExecStreamsInv.
 Open Scope N_scope.
 Open Scope list_scope.
@@ -245,4 +245,67 @@ Proof.
   destruct (proj2 (C19_marked_forwarded_proof x t args out y Hy) Hne) as (Hp & _).
   change (snd (fst c19_call_remote_guard)) with CmpNe. cbn [str_cmp].
   apply String.eqb_neq in Hp. rewrite Hp. reflexivity.
+Qed.
+
+(* ------------------------------------------------------------------------------------------ *)
+(* 4. the history-level statement is refuted by the model (and by the code: known finding
+   forwarded-before-arguments-known, corpus/C19/known_forwarded_before_arguments.json):
+   a call whose arguments are not known yet is marked as sent and forwarded at once; the target
+   cannot execute it; when the sender learns the arguments it keeps its mark and does not forward
+   again, so the call stays marked although the target could execute it with everything that is known *)
+
+Definition cx_var (n : string) : var := {| v_name := n; v_pos := 0 |}.
+Definition cx_call (p : peer_arg) (fn : string) (args : list value) (out : call_output) : instr :=
+  ICall "call" {| t_peer := p; t_service := SLiteral "s"; t_function := SLiteral fn |} args out.
+Definition cx_script : instr :=
+  ISeq (IPar (cx_call (PLiteral "D") "peer" [] (OutScalar (cx_var "v4")))
+             (ISeq (cx_call (PLiteral "A") "val" [] (OutScalar (cx_var "v5")))
+                   (cx_call (PLiteral "D") "later" [] OutNone)))
+       (cx_call (PScalar (cx_var "v4")) "use" [VScalar (cx_var "v5")] OutNone).
+Definition cx_service (p : string) (rq : request) : service_answer :=
+  let j := if String.eqb (rq_function rq) "peer" then JStr "C" else JStr (rq_function rq ++ "@" ++ p) in
+  {| sa_ret_code := 0; sa_text := ""; sa_parsed := Some j |}.
+Definition cx_ops : list hop :=
+  [HStart; HDeliver 0 false; HReturn "D"; HDeliver 0 false; HReturn "A"; HDeliver 0 false; HReturn "D"].
+
+Lemma quiescent_b_true n : quiescent_b n = true -> quiescent n.
+Proof.
+  unfold quiescent_b, quiescent. intros H. apply andb_prop in H. destruct H as [H H3]. apply andb_prop in H. destruct H as [H1 H2].
+  split; [exact H1 |]. split; [destruct (n_inflight n); [reflexivity | discriminate] |].
+  intros h Hin. rewrite forallb_forall in H3. specialize (H3 h Hin). destruct (ho_pending h); [reflexivity | discriminate].
+Qed.
+
+Lemma C19_quiescent_check_sound hook finish fuel script init ts ttl service peers observer :
+  C19_quiescent_for hook finish fuel script init ts ttl service peers observer ->
+  forall ops, C19_quiescent_check hook finish fuel script init ts ttl service peers observer ops <> Some false.
+Proof.
+  intros H ops. unfold C19_quiescent_check.
+  set (n := fold_left (step hook finish fuel script init ts ttl service) ops (start_net peers)).
+  destruct (quiescent_b n) eqn:Eq; cbn [negb]; [| discriminate].
+  pose proof (quiescent_b_true n Eq) as Hq.
+  destruct (merged hook finish fuel script init ts ttl observer n) as [m |] eqn:Em; [| discriminate].
+  intros E. inversion E as [E1]. clear E.
+  assert (Ht : forallb (fun h => match run_at hook finish fuel script init ts ttl h m [] with
+                                 | OutNewData _ d _ _ _ =>
+                                     Nat.eqb (marks_of_others (ho_peer h) observer (d_trace d))
+                                             (marks_of_others (ho_peer h) observer (d_trace m))
+                                 | _ => true end) (n_hosts n) = true).
+  { apply forallb_forall. intros h Hin.
+    destruct (run_at hook finish fuel script init ts ttl h m []) as [code d next reqs signed | | | |] eqn:Er; try reflexivity.
+    apply Nat.eqb_eq. apply (H ops Hq m Em h Hin code d next reqs signed Er). }
+  rewrite Ht in E1. discriminate.
+Qed.
+
+Lemma cx_check :
+  C19_quiescent_check stream_instr finish_streams 200 cx_script "A" 1 2 cx_service ["A"; "B"; "C"; "D"] "observer" cx_ops = Some false.
+Proof. vm_compute. reflexivity. Qed.
+
+Theorem C19_full_refuted_proof : ~ C19_full stream_instr finish_streams.
+Proof.
+  intros H.
+  assert (Hn : ~ In "observer" ["A"; "B"; "C"; "D"]).
+  { intros Hi. repeat (destruct Hi as [Hi | Hi]; [discriminate |]). contradiction. }
+  apply (C19_quiescent_check_sound _ _ _ _ _ _ _ _ _ _
+           (H 200%nat cx_script "A" 1 2 cx_service ["A"; "B"; "C"; "D"] "observer" Hn (or_introl eq_refl)) cx_ops).
+  exact cx_check.
 Qed.
